@@ -18,7 +18,7 @@ func genC13(tier string, seed int64) (*Family, error) {
 	fam := &Family{
 		Prop: "C13", PkgPath: modPath + "/zz_verif/" + pkg, Files: map[string]string{},
 		Bounds:    map[string]interface{}{"rules": 4, "layers": "<= 3 (thorough 4)", "layer_width": "<= 3", "shapes": "empty layers, unknown names, names repeated inside a layer"},
-		Cfg:       interp.Config{MaxSteps: 3_000_000},
+		Cfg:       interp.Config{MaxSteps: 3_000_000, TrackAllocs: []string{"eMsg"}, TrackFields: []string{"engine.Gengine.returnResult"}},
 		Functions: []string{"engine.Gengine).ExecuteDAGModel"},
 	}
 	fam.Assumptions = []string{"each rule appears in at most one layer (repeats only inside a layer)", "saliences concrete (the DAG model ignores them)", "schedule handling as in C05"}
@@ -276,6 +276,59 @@ func %s() {
 `, m.fn, name, n, text.String(), call)
 		fam.Instances = append(fam.Instances, Instance{Func: name, Stratum: m.fn, Desc: "rule locals private in " + m.fn, Expect: []string{"executed"}})
 	}
+	// locals of an execution that ended in a fault, and of rules with many locals
+	b.WriteString(`
+// a local assigned by an execution that then faulted (at rule level, in an assignment, in a call) is gone in the next execution of the same rule
+func H_after_fault() {
+	for _, kind := range []string{" if x {\n  y = 1\n }", " y = one / zero", " boom()", " return !x"} {
+		dc := newDC(nil)
+		a := vnd.Int64("a")
+		dc.Add("a", a)
+		dc.Add("p", true)
+		dc.Add("boom", func() { panic("boom") })
+		rb := buildText(dc, "rule \"r0\" begin\n ev(\"r0.s\")\n if p {\n  x = a\n "+kind+"\n }\n y = x\n ev(\"r0.e\")\n return y\nend\n")
+		eng := engine.NewGengine()
+		err := eng.Execute(rb, true)
+		vnd.Assert(err != nil, "the first execution faults after assigning x")
+		dc.Add("p", false)
+		e0 := vnd.Count("r0.e")
+		err = eng.Execute(rb, true)
+		res, _ := eng.GetRulesResultMap()
+		vnd.Assert(err != nil, "the next execution of the rule starts with x undefined")
+		vnd.Assert(vnd.Count("r0.e") == e0, "the reader stops at the undefined local")
+		_, has := res["r0"]
+		vnd.Assert(!has, "nothing is returned")
+	}
+	vnd.Reach("executed")
+}
+
+// rules with many locals: none of them reaches the next rule or the next call
+func H_many_locals() {
+	for _, k := range []int{1, 8, 9, 12, 17, 33} {
+		dc := newDC(nil)
+		a := vnd.Int64("a")
+		dc.Add("a", a)
+		body := ""
+		for i := 0; i < k; i++ {
+			body += " l" + strconv.Itoa(i) + " = a\n"
+		}
+		text := "rule \"r0\" salience 10 begin\n ev(\"r0.s\")\n" + body + " ev(\"r0.e\")\nend\nrule \"r1\" salience 5 begin\n ev(\"r1.s\")\n y = l" + strconv.Itoa(k-1) + "\n ev(\"r1.e\")\n return y\nend\n"
+		rb := buildText(dc, text)
+		eng := engine.NewGengine()
+		for call := 0; call < 2; call++ {
+			e0 := vnd.Count("r1.e")
+			err := eng.Execute(rb, true)
+			vnd.Assert(err != nil, "the reader fails: the other rule's locals are invisible")
+			vnd.Assert(vnd.Count("r1.e") == e0, "the reader stops at the undefined local")
+		}
+		err := eng.ExecuteSelectedRules(rb, []string{"r1"})
+		vnd.Assert(err != nil, "also in a later call that runs the reader alone")
+	}
+	vnd.Reach("executed")
+}
+`)
+	fam.Instances = append(fam.Instances, Instance{Func: "H_after_fault", Stratum: "after-fault", Desc: "locals of a faulted execution do not survive", Expect: []string{"executed"}},
+		Instance{Func: "H_many_locals", Stratum: "many-locals", Desc: "rules with 1..33 locals followed by a reader", Expect: []string{"executed"}})
 	fam.Files[repoDir+"/zz_verif/"+pkg+"/h.go"] = strings.Replace(stdHead(pkg), "import (", "import (\n\t\"strconv\"", 1) + b.String()
 	fam.Files[repoDir+"/zz_verif/"+pkg+"/lib.go"] = libFile(pkg)
 	fam.TestFile = repoDir + "/zz_verif/" + pkg + "/zz_replay_test.go"
